@@ -616,3 +616,5 @@ def run(res, facts, tier):
     c02_expr.run_c11_rule(res, facts, tier)
     from . import c11_nodeconv
     c11_nodeconv.run_rule(res, facts, tier)
+    from . import c11_xstring
+    c11_xstring.run_rule(res, facts, tier)
